@@ -202,7 +202,10 @@ def run_check(pid, tier, harnesses, level="model_checking", assumptions=(), expl
         # ---- confirm failures on the real build
         groups = {}
         for f in res.failures:
-            groups.setdefault(_sig(f), []).append(f)
+            # failures that match a listed finding and those that do not are confirmed separately, so that which
+            # instance of a signature happens to come first can never decide between KNOWN-FINDING and VIOLATION
+            k0 = match_known(known, pid, h.name, f)
+            groups.setdefault(_sig(f) + ("|known:" + k0["what"][:40] if k0 else "|new"), []).append(f)
         for sig, fs in groups.items():
             done = False
             tried = 0
